@@ -244,25 +244,26 @@ def scopes_of(st):
 
 
 def cross_scope_alias_region(st, val, tid):
-    """region of the recorded finding: an alias declared in one FROM scope equals the name (explicit alias, else bare
-    table name) under which a base table of THAT scope is referenced again in ANOTHER scope of the statement"""
+    """region of the recorded finding (alias edges are statement-wide): a base table T occurs in two FROM scopes S and S2 of
+    the statement; the name it is referenced under in S2 (its alias there, else its bare name) equals the exposed name of a
+    DIFFERENT relation of S"""
     scopes = scopes_of(st)
     for i, sc in enumerate(scopes):
-        for r1 in sc:
-            if not r1.alias:
+        for k, other in enumerate(scopes):
+            if k == i:
                 continue
-            a = val(r1.alias)
-            for t in sc:
-                if t is r1 or not isinstance(t, gen.Tab):
+            for x in other:
+                if not isinstance(x, gen.Tab):
                     continue
-                for k, other in enumerate(scopes):
-                    if k == i:
+                a = val(x.alias) if x.alias else val(x.name)
+                if not any(isinstance(t, gen.Tab) and bool(tid(t) == tid(x)) for t in sc):
+                    continue
+                for r in sc:
+                    if isinstance(r, gen.Tab) and not r.alias and bool(tid(r) == tid(x)):
                         continue
-                    for t2 in other:
-                        if isinstance(t2, gen.Tab) and bool(tid(t2) == tid(t)):
-                            exposed = val(t2.alias) if t2.alias else val(t2.name)
-                            if bool(exposed == a):
-                                return True
+                    exposed = val(r.alias) if r.alias else (val(r.name) if isinstance(r, gen.Tab) else None)
+                    if exposed is not None and bool(exposed == a) and not (isinstance(r, gen.Tab) and r.alias and bool(tid(r) == tid(x)) and False):
+                        return True
     return False
 
 
